@@ -417,8 +417,8 @@ def build_unit(name, tpl_path, canary=False):
             # //@xexprfn name / signature + ASSUMED contract lines / //@end : external_body function whose body is the removed text
             name = pos[0]
             if name not in unit.xexprs:
-                if unit.failed_lifts:
-                    continue  # the function that uses it was skipped with its refused lift
+                if unit.failed_lifts or unit.skipped:
+                    continue  # the function that uses it was skipped (refused lift / refused extraction)
                 raise ExtractError(f"{tpl_path}:{b.lineno}: xexprfn {name}: no `xexpr ... as {name}(..)` fired before this directive")
             sig = "\n".join("\n".join(sub[2]) for sub in b.subs)
             if not re.match(r"\s*(pub\s+)?fn\s+" + re.escape(name) + r"\b", sig):
